@@ -760,6 +760,9 @@ func (env *Env) call(e *SExpr) TV {
 		return mathInt(a.V.(If).Val)
 	case "zero":
 		// zero(): the zero value of the (single) type parameter of the generic function under verification
+		if env.ex.zeroT != nil {
+			return TV{zeroValue(env.ex.zeroT), env.ex.zeroT}
+		}
 		name := "T"
 		if env.ex.fn != nil {
 			if tps := env.ex.fn.TypeParams(); tps != nil && tps.Len() > 0 {
